@@ -11,14 +11,14 @@ open Rosmar Rosmar.Sql
 /-! ### `$_keyspace`: the live documents of the collection -/
 
 theorem tie_keyspace_pred (cid : Nat) (k : String) (r : Row) :
-    Collection_prepareQuery_WHERE_0.selects (env [("$where.collection", .int cid)]) (enc cid k r) = r.value.isSome := by
+    sel_by_collection_valueSet.selects (env [("$where.collection", .int cid)]) (enc cid k r) = r.value.isSome := by
   cases h : r.value <;>
-  simp [Collection_prepareQuery_WHERE_0, Select.selects, E.eval, SRow.get, env, enc, encV, ofBool, SV.truthy, SV.same, h]
+  simp [sel_by_collection_valueSet, Select.selects, E.eval, SRow.get, env, enc, encV, ofBool, SV.truthy, SV.same, h]
 
 /-- The model's `$_keyspace` has one row for exactly the documents the regenerated common table expression selects. -/
 theorem tie_keyspace (cid : Nat) (docs : Docs) :
     docs.filterMap (fun d => d.2.value.map (fun b => ({ id := d.1, body := b, xattrs := d.2.xattrs } : KsRow)))
-      = (docs.filter (fun d => Collection_prepareQuery_WHERE_0.selects (env [("$where.collection", .int cid)]) (enc cid d.1 d.2))).filterMap
+      = (docs.filter (fun d => sel_by_collection_valueSet.selects (env [("$where.collection", .int cid)]) (enc cid d.1 d.2))).filterMap
           (fun d => d.2.value.map (fun b => ({ id := d.1, body := b, xattrs := d.2.xattrs } : KsRow))) := by
   induction docs with
   | nil => rfl
